@@ -49,6 +49,7 @@ type verifWorld struct {
 var verifW *verifWorld
 
 func verifStubReadFile(nfc *iso7816.NfcSession, fileId uint16) ([]byte, error) {
+	verifSerial()
 	w := verifW
 	w.reads = append(w.reads, fileId)
 	if fileId == w.readErr {
@@ -59,11 +60,12 @@ func verifStubReadFile(nfc *iso7816.NfcSession, fileId uint16) ([]byte, error) {
 	}
 	return w.content[fileId], nil
 }
-func verifStubSelectMF(nfc *iso7816.NfcSession) error { return nil }
+func verifStubSelectMF(nfc *iso7816.NfcSession) error { verifSerial(); return nil }
 func verifStubSelectAid(nfc *iso7816.NfcSession, aid []byte) (bool, error) {
 	return true, nil
 }
 func verifStubDoPACE(p *pace.Pace) (*document.PaceResult, *document.PaceCamResult, error) {
+	verifSerial()
 	w := verifW
 	w.paceCalled++
 	w.order = append(w.order, "pace")
@@ -83,6 +85,7 @@ func verifStubDoPACE(p *pace.Pace) (*document.PaceResult, *document.PaceCamResul
 	return w.paceRes, w.camRes, w.paceErr
 }
 func verifStubDoBAC(b *bac.BAC) (*document.BacResult, error) {
+	verifSerial()
 	w := verifW
 	w.bacCalled++
 	w.order = append(w.order, "bac")
@@ -93,6 +96,7 @@ func verifStubDoBAC(b *bac.BAC) (*document.BacResult, error) {
 	return w.bacRes, w.bacErr
 }
 func verifStubDoAA(a *activeauth.ActiveAuth) (*document.ActiveAuthResult, error) {
+	verifSerial()
 	w := verifW
 	w.aaCalled++
 	w.order = append(w.order, "aa")
@@ -106,6 +110,7 @@ func verifStubDoAA(a *activeauth.ActiveAuth) (*document.ActiveAuthResult, error)
 	return w.aaRes, w.aaErr
 }
 func verifStubDoCA(c *chipauth.ChipAuth) (*document.ChipAuthResult, error) {
+	verifSerial()
 	w := verifW
 	w.caCalled++
 	w.order = append(w.order, "ca")
@@ -116,6 +121,7 @@ func verifStubDoCA(c *chipauth.ChipAuth) (*document.ChipAuthResult, error) {
 	return w.caRes, w.caErr
 }
 func verifStubPA(doc *document.Document, pool cms.CertPool) (*document.PassiveAuthResult, error) {
+	verifSerial()
 	w := verifW
 	w.paCalled++
 	w.order = append(w.order, "pa")
@@ -291,4 +297,15 @@ func verifH_C08_orchestration() {
 	verifAssert(w.paDoc == &docEx.Document, "passive authentication runs over the document that is returned")
 	verifAssert(s.PassiveAuthResult == w.paRes && s.PassiveAuthErr == w.paErr, "PA outcome recorded as returned")
 	verifReach("complete")
+}
+
+// serialisation of whole calls (C20): when set, every stub that stands for chip I/O or a
+// verification step asserts that the object's mutex is held at that point, i.e. the whole
+// operation - not just the configuration accesses - is mutually exclusive on a shared instance.
+var verifSerialMu any
+
+func verifSerial() {
+	if verifSerialMu != nil {
+		verifAssert(verifHeld(verifSerialMu), "the operation runs while the object's mutex is held (calls on a shared instance are serialised)")
+	}
 }
